@@ -401,8 +401,21 @@ def check_C10_resend(tr, history, meta, rng, thorough=False):
                         extra.remove(r_)
                 missing = [r_ for r_ in want_u if got_u.count(r_) < want_u.count(r_)]
                 # K-usage-crash-dup: the crash fell between the usage commit and the channel commit, so the
-                # record of the retired object is written a second time by the re-sent command
-                known = "K-usage-crash-dup" if (not missing and extra and all(e_ in want_u or _same_record_modulo_time(e_, want_u) for e_ in extra)) else None
+                # re-sent command writes the very same record(s) again (exact duplicates).
+                # K-reclose-usage-row: a re-sent close of a mailbox that is already gone creates and deletes it
+                # again and records that phantom (for_nameplate=0, total_time=0, no waiting time).
+                def phantom(row):
+                    q = row.split(" ")
+                    return msg.get("type") == "close" and q[1] == "u_mailboxes" and q[3] == "0" and q[5] == "0" and q[6] == "~"
+                kinds = set()
+                for e_ in extra:
+                    if e_ in want_u:
+                        kinds.add("K-usage-crash-dup")
+                    elif phantom(e_):
+                        kinds.add("K-reclose-usage-row")
+                    else:
+                        kinds.add(None)
+                known = None if (missing or None in kinds or not kinds) else sorted(kinds)[0]
                 out.append(Finding("C10", "a re-sent command after a crash reaches the same stored state (usage records)", j,
                                    {"command": proto.op_line(op), "crash_after_commit": k, "extra_usage_rows": extra[:4],
                                     "missing_usage_rows": missing[:4]}, known))
